@@ -282,6 +282,15 @@ class PCE500KeyboardHandler:
         """Restore the keyboard handler from ``snapshot_state`` output."""
 
         matrix_state = state.get("matrix")
+        if not isinstance(matrix_state, dict) and "key_states" in state:
+            # The Rust core stores the matrix state at the top level.
+            matrix_state = state
+            state = {
+                "last_kol": state.get("kol", self._last_kol),
+                "last_koh": state.get("koh", self._last_koh),
+                "last_kil": state.get("kil_latch", self._last_kil),
+                "scan_enabled": state.get("scan_enabled", self._scan_enabled),
+            }
         if isinstance(matrix_state, dict):
             self._matrix.load_state(matrix_state)
 
